@@ -562,3 +562,25 @@ package types
 //@   ensures zero:  ZERO ==> ok && res.abs == 0 && res.ns == 0
 //@   ensures civil: !ZERO && 1 <= Y && Y <= 9999 && time.dayExists(time.dayNo(Y, M, D), time.Local) ==>
 //@                    ok && time.year(res.abs, res.loc) == Y && time.month(res.abs, res.loc) == M && time.day(res.abs, res.loc) == D
+
+// ---- JSON decoders that write into a map (C14 "nil maps included", C04) --------------------------
+// Decoding into a fresh zero-valued variable means the target map is nil: the decoder has to create it.
+// Thin contracts: no run-time panic for any input and any (nil or non-nil) target map.
+//@ func (*Weekdays).UnmarshalJSON
+//@   params w, bytes
+//@   returns err
+//@   requires target: w != nil
+//@   modifies *w
+//@   ensures made: err == nil ==> *w != nil
+//@   loop 1
+//@     invariant idx:  -1 <= rangeindex && rangeindex < len(tokens)
+//@     invariant made: *w != nil
+
+//@ func (*Segments).UnmarshalJSON
+//@   params ss, bytes
+//@   returns err
+//@   modifies *ss
+//@   ensures made: err == nil && ss != nil ==> *ss != nil
+//@   loop 1
+//@     invariant idx:  -1 <= rangeindex && rangeindex < len(segments)
+//@     invariant made: ss != nil && *ss != nil
